@@ -42,6 +42,44 @@ fn main() {
     // library code under test prints to stdout: keep the verdict stream clean
     fvh::out::capture_stdout();
     let seed: u64 = std::env::var("VERIF_SEED").ok().and_then(|s| s.parse::<i64>().ok()).map(|v| v as u64).unwrap_or(1);
+    // Replay tier: the saved reproductions of every defect that was repaired (and of every
+    // seeded change a check had to learn to catch) run first, each in its own process, bypassing
+    // the generators. They are plain regression cases: a failure is a violation.
+    let mut regress_failed = false;
+    if replay.is_none() && std::env::var("FVH_NO_REGRESS").is_err() {
+        let dir = std::path::Path::new(env!("CARGO_MANIFEST_DIR")).parent().unwrap().join("regress").join(&id);
+        let mut files: Vec<std::path::PathBuf> = std::fs::read_dir(&dir).map(|d| d.filter_map(|e| e.ok()).map(|e| e.path()).filter(|p| p.extension().map_or(false, |x| x == "json")).collect()).unwrap_or_default();
+        files.sort();
+        let exe = std::env::current_exe().expect("own path");
+        let mut passed = 0;
+        let mut inconclusive = 0;
+        for chunk in files.chunks(8) {
+            let children: Vec<_> = chunk
+                .iter()
+                .map(|f| (f.clone(), std::process::Command::new(&exe).arg(&id).arg("--replay").arg(f).stdout(std::process::Stdio::null()).stderr(std::process::Stdio::null()).spawn()))
+                .collect();
+            for (f, ch) in children {
+                match ch.and_then(|mut c| c.wait()) {
+                    Ok(st) if st.code() == Some(0) => passed += 1,
+                    Ok(st) if st.code() == Some(1) => {
+                        // once more, alone: replays of timing-dependent cases must fail twice
+                        let again = std::process::Command::new(&exe).arg(&id).arg("--replay").arg(&f).stdout(std::process::Stdio::null()).stderr(std::process::Stdio::null()).status();
+                        if matches!(again, Ok(s) if s.code() == Some(1)) {
+                            fvh::outln!("VIOLATION property={} replay={}", id, f.display());
+                            fvh::outln!("  regression: a saved reproduction of a repaired defect fails again");
+                            regress_failed = true;
+                        } else {
+                            inconclusive += 1;
+                        }
+                    }
+                    _ => inconclusive += 1,
+                }
+            }
+        }
+        if !files.is_empty() {
+            eprintln!("regression replays: {} passed, {} inconclusive, of {}", passed, inconclusive, files.len());
+        }
+    }
     let code = fvh::props::run(&id, tier, seed, replay);
-    std::process::exit(code);
+    std::process::exit(if regress_failed && code != 1 { 1 } else { code });
 }
